@@ -161,6 +161,7 @@ class TMap(T):
     def __init__(self, k, v, ordered=False):
         assert k.scalar, f"dict key type must be scalar: {k}"
         self.k, self.v, self.ordered = k, v, ordered
+        self.default = False
 
     def key(self):
         return (self.k, self.v, self.ordered)
@@ -318,8 +319,13 @@ def _pt(n, env: TypeEnv) -> T:
         if base in ("set", "frozenset", "OrderedSet", "FrozenOrderedSet", "Set", "AbstractSet",
                     "MutableSet", "oset"):
             return TSet(_pt(args[0], env))
-        if base in ("dict", "Dict", "Mapping", "MutableMapping", "defaultdict"):
+        if base in ("dict", "Dict", "Mapping", "MutableMapping"):
             return TMap(_pt(args[0], env), _pt(args[1], env))
+        if base == "defaultdict":
+            # a dict whose lookup of a missing key inserts the value type's empty value (not part of the type's identity)
+            m = TMap(_pt(args[0], env), _pt(args[1], env))
+            m.default = True
+            return m
         if base == "odict":
             return TMap(_pt(args[0], env), _pt(args[1], env), ordered=True)
         if base in ("list", "List", "Sequence", "Iterable", "Collection", "Iterator", "Generator"):
